@@ -1218,7 +1218,7 @@ class Interp:
             if name in obj.fields:
                 return obj.fields[name]
             return self.class_getattr(obj.cls, obj, name, ctx, node)
-        if isinstance(obj, (tuple, SymSeq, TailSeq, BitSet, FlagSet, range)):
+        if isinstance(obj, (tuple, SymSeq, TailSeq, BitSet, FlagSet, range, SymMapping)):
             return BuiltinMethod(obj, name)
         if isinstance(obj, SymEnum):
             if name in ('value', 'name'):
